@@ -561,6 +561,16 @@ func (broker *Broker) canDelete(file sts.File) bool {
 	return false
 }
 
+// unchangedOnDisk tells whether the file is still the version the cache entry
+// describes (or gone): only then may it be removed by path.
+func (broker *Broker) unchangedOnDisk(cached sts.Cached) bool {
+	changed, err := broker.Conf.Store.Sync(cached)
+	if changed != nil {
+		return false
+	}
+	return err == nil || broker.Conf.Store.IsNotExist(err)
+}
+
 func (broker *Broker) scan() []sts.Hashed {
 	var err error
 	var files []sts.File
@@ -626,7 +636,7 @@ func (broker *Broker) scan() []sts.Hashed {
 		case cached.GetHash() == "":
 			// Add any that might have failed the hash calculation last time
 			wrapped = append(wrapped, &hashFile{File: cached})
-		case cached.IsDone() && broker.canDelete(cached):
+		case cached.IsDone() && broker.canDelete(cached) && broker.unchangedOnDisk(cached):
 			err = broker.Conf.Store.Remove(cached)
 			if err != nil {
 				broker.error("Failed to delete aged file:", cached.GetName())
@@ -1294,7 +1304,8 @@ func (broker *Broker) finish(file sts.Polled) {
 		// would eventually be removed from the cache (age off) and then get
 		// picked up again to be sent redundantly.
 		broker.Conf.Cache.Done(file.GetName(), func(cached sts.Cached) {
-			if broker.canDelete(cached) {
+			// A file rewritten since it was sent is a new version: not ours to delete
+			if broker.canDelete(cached) && broker.unchangedOnDisk(cached) {
 				if err := broker.Conf.Store.Remove(cached); err != nil {
 					broker.error("Failed to delete:", cached.GetName(), err.Error())
 					return
